@@ -637,15 +637,26 @@ func c20Window(c *core.Ctx, r *core.Report) {
 			continue
 		}
 		bo, ok := ifi.Cond.(*ssa.BinOp)
-		if !ok || bo.Op != token.LSS {
+		if !ok {
 			continue
 		}
-		call, ok := bo.X.(*ssa.Call)
+		lenSide, nSide := bo.X, bo.Y
+		switch bo.Op {
+		case token.LSS:
+		case token.GTR:
+			lenSide, nSide = bo.Y, bo.X
+		default:
+			continue
+		}
+		if cv, ok := lenSide.(*ssa.Convert); ok {
+			lenSide = cv.X
+		}
+		call, ok := lenSide.(*ssa.Call)
 		if !ok {
 			continue
 		}
 		bi, ok := call.Call.Value.(*ssa.Builtin)
-		if !ok || bi.Name() != "len" || call.Call.Args[0] != hist || !nMinus1(bo.Y) {
+		if !ok || bi.Name() != "len" || call.Call.Args[0] != hist || !nMinus1(nSide) {
 			continue
 		}
 		tb := b.Succs[0]
@@ -683,7 +694,7 @@ func c20Window(c *core.Ctx, r *core.Report) {
 		isTrue := ok && k.Value != nil && k.Value.String() == "true"
 		r.Check(isTrue && (shortcut || afterScan), "WINDOW", construct, c.Pos(ret.Pos()), "reached only through N == 1 or through exhaustion of the scan", "the window test can answer true on a path that is neither the N == 1 case nor the end of the scan over all N−1 rows")
 	}
-	r.Floor("WINDOW", "true answers of the window test", nTrue, 2)
+	r.Floor("WINDOW", "true answers of the window test", nTrue, 1)
 	// the current outcome must itself be Pending/Firing
 	okCur := false
 	for _, call := range callsTo(fn, pendOrFiring) {
